@@ -4582,8 +4582,13 @@ class TLSConnection(TLSRecordLayer):
                                  settings.pskConfigs if
                                  i[0] in client_identities]
                     if psks_prfs:
-                        ciphers = CipherSuite.filter_for_prfs(ciphers,
-                                                              psks_prfs)
+                        psk_ciphers = CipherSuite.filter_for_prfs(ciphers,
+                                                                  psks_prfs)
+                        # when the client offers none of them, continue
+                        # with a regular certificate based handshake
+                        if any(i in client_hello.cipher_suites
+                               for i in psk_ciphers):
+                            ciphers = psk_ciphers
                 for cipher in ciphers:
                     # select first mutually supported
                     if cipher in client_hello.cipher_suites:
